@@ -9,6 +9,8 @@ mod bound;
 mod common;
 mod item_impl;
 mod item_type;
+#[cfg(frozenlib_derive_ex_verif)]
+pub mod verif_hooks;
 
 use proc_macro2::TokenStream;
 use quote::quote;
@@ -1133,6 +1135,7 @@ use syn::{parse2, Item, Result};
 ///
 /// As with `bound(...)`, `dump` can be applied to multiple traits by writing `#[derive_ex(Clone, Default, dump)]`.
 // #[include_doc("../../doc/derive_ex.md", end)]
+#[cfg(not(frozenlib_derive_ex_verif))]
 #[proc_macro_attribute]
 pub fn derive_ex(
     attr: proc_macro::TokenStream,
@@ -1170,6 +1173,7 @@ pub fn derive_ex(
 ///     value: String,
 /// }
 /// ```
+#[cfg(not(frozenlib_derive_ex_verif))]
 #[proc_macro_derive(
     Ex,
     attributes(derive_ex, ord, partial_ord, eq, partial_eq, hash, debug, default)
